@@ -1,6 +1,7 @@
 package txsim
 
 import (
+	"fmt"
 	"sort"
 
 	"verifharness/internal/gen"
@@ -11,6 +12,14 @@ type GenConfig struct {
 	MaxTxs    int
 	MaxEvents int
 	Leases    bool // interleave lease / release / tick / sweep events
+
+	// The options below are opt-in; with all of them off the generator draws
+	// exactly the random stream it drew before they existed.
+	Reconnect     bool // detached blocks are connected again (same id/hash/height/time/txs)
+	MaxReorg      int  // deepest reorganisation in blocks (0 = 3)
+	WideAmounts   bool // amounts around 2^31, 2^32, 2^53 and up to the money supply
+	ZeroValue     bool // zero-value outputs (outside wf_universe: a separate stream)
+	MoreConflicts bool // conflicting spends twice as often
 }
 
 type simBlock struct {
@@ -35,6 +44,10 @@ type Sim struct {
 	Events  []Event
 	Tags    map[string]int
 	dropped int
+
+	cfg      GenConfig
+	detached []simBlock // the blocks removed by the last reorganisation, ascending (Reconnect only)
+	detBase  int64      // the height that reorganisation rolled back to (the fork point is detBase-1)
 }
 
 // NewSim returns a simulator drawing from r.
@@ -84,6 +97,18 @@ func (s *Sim) emit(e Event) bool {
 	if !s.F.EventOK(s.U, e) {
 		s.dropped++
 		return false
+	}
+	if e.K == "confirm" {
+		if _, ok := s.F.Conf[e.T]; !ok {
+			for c := range s.F.Unconf {
+				if sharesInput(s.U, e.T, c) {
+					// the wallet's view: an unconfirmed transaction it still holds
+					// conflicts with the one being confirmed (removed with its descendants)
+					s.Tags["unconfirmed_conflict_removed_by_confirmation"]++
+					break
+				}
+			}
+		}
 	}
 	s.F.Apply(s.U, e)
 	s.Events = append(s.Events, e)
@@ -141,8 +166,14 @@ func (s *Sim) newTx(coinbase bool) *Tx {
 				continue
 			}
 			// prefer unspent-in-mempool outputs; sometimes conflict on purpose
-			if len(s.mempoolSpenders(op)) > 0 && !s.r.Chance(1, 3) {
-				continue
+			if len(s.mempoolSpenders(op)) > 0 {
+				if s.cfg.MoreConflicts {
+					if !s.r.Chance(2, 3) {
+						continue
+					}
+				} else if !s.r.Chance(1, 3) {
+					continue
+				}
 			}
 			// avoid spending an output of a tx that conflicts in the mempool with another chosen parent
 			used[op] = true
@@ -154,7 +185,7 @@ func (s *Sim) newTx(coinbase bool) *Tx {
 	}
 	nOut := s.r.Range(1, 4)
 	for i := 0; i < nOut; i++ {
-		t.Outs = append(t.Outs, int64(s.r.Range(1, 50))*1000+int64(s.r.Range(0, 9)))
+		t.Outs = append(t.Outs, s.amount())
 	}
 	// credits: 0..3 of the outputs
 	for i := 0; i < nOut; i++ {
@@ -168,6 +199,32 @@ func (s *Sim) newTx(coinbase bool) *Tx {
 	}
 	s.U.Add(t)
 	return t
+}
+
+// wideAmounts are the boundary values of the amount encodings (4-byte and
+// float64 truncations), up to and beyond the money supply. 240 outputs of the
+// largest one still sum below 2^63.
+var wideAmounts = []int64{1<<31 - 1, 1 << 31, 1<<32 - 1, 1 << 32, 1<<32 + 1, 1<<33 + 7, 1<<40 + 12345,
+	2100000000000000, 2099999999999999, 1<<53 - 1, 1 << 53, 1<<53 + 1, 1 << 54}
+
+func (s *Sim) amount() int64 {
+	if s.cfg.ZeroValue && s.r.Chance(1, 3) {
+		s.Tags["zero_value_output"]++
+		return 0
+	}
+	if s.cfg.WideAmounts && s.r.Chance(1, 2) {
+		a := wideAmounts[s.r.Intn(len(wideAmounts))]
+		switch {
+		case a > 1<<53:
+			s.Tags["amount_above_2^53"]++
+		case a >= 1<<32:
+			s.Tags["amount_above_2^32"]++
+		default:
+			s.Tags["amount_near_2^31"]++
+		}
+		return a
+	}
+	return int64(s.r.Range(1, 50))*1000 + int64(s.r.Range(0, 9))
 }
 
 func (s *Sim) acceptToMempool(t *Tx) bool {
@@ -341,12 +398,24 @@ func (s *Sim) reorg() {
 	if len(s.chain) == 0 {
 		return
 	}
-	d := s.r.Range(1, 3)
+	d := 0
+	if s.cfg.MaxReorg > 3 {
+		d = 1 + s.r.Pick(6, 5, 4, 3, 2, 2, 1, 1, 1, 2)
+		if d > s.cfg.MaxReorg {
+			d = s.cfg.MaxReorg
+		}
+	} else {
+		d = s.r.Range(1, 3)
+	}
 	if d > len(s.chain) {
 		d = len(s.chain)
 	}
-	removed := s.chain[len(s.chain)-d:]
+	removed := append([]simBlock{}, s.chain[len(s.chain)-d:]...)
 	s.chain = s.chain[:len(s.chain)-d]
+	if s.cfg.Reconnect {
+		s.detached = removed
+	}
+	defer func() { s.detBase = s.tipH + 1 }()
 	low := removed[0].height
 	// the node's chain also holds blocks without wallet transactions: the
 	// rollback height may be any height above the last surviving block
@@ -375,7 +444,12 @@ func (s *Sim) reorg() {
 		s.emit(Event{K: "disconnect", H: low}) // stale repeat
 		s.Tags["redelivery"]++
 	}
-	s.Tags["reorg_depth_"+string(rune('0'+d))]++
+	s.Tags[fmt.Sprintf("reorg_depth_%d", d)]++
+	s.afterDetach(removed, low)
+}
+
+// afterDetach is the node's side of a reorganisation (no random draws).
+func (s *Sim) afterDetach(removed []simBlock, low int64) {
 	// node: transactions return to the mempool, coinbases vanish with descendants
 	for _, b := range removed {
 		for _, x := range b.txs {
@@ -416,6 +490,164 @@ func (s *Sim) reorg() {
 	}
 }
 
+// rollbackTo makes the node abandon every block at or above height h (one
+// rollback notification); nothing is kept for a later reconnection.
+func (s *Sim) rollbackTo(h int64) {
+	var removed []simBlock
+	for len(s.chain) > 0 && s.chain[len(s.chain)-1].height >= h {
+		removed = append([]simBlock{s.chain[len(s.chain)-1]}, removed...)
+		s.chain = s.chain[:len(s.chain)-1]
+	}
+	s.emit(Event{K: "disconnect", H: h})
+	s.afterDetach(removed, h)
+}
+
+// validNow reports whether the node could connect blk (again) on top of its
+// current chain: no input spent in the chain, parents in the chain or earlier
+// in the block.
+func (s *Sim) validNow(blk simBlock) bool {
+	in := map[int64]bool{}
+	spent := map[[2]int64]bool{}
+	for _, x := range blk.txs {
+		if _, ok := s.inChain(x); ok {
+			return false
+		}
+		for _, i := range s.U.Get(x).Ins {
+			if s.spentInChain(i) || spent[i] {
+				return false
+			}
+			spent[i] = true
+			if p := s.U.Get(i[0]); p != nil {
+				if _, ok := s.inChain(p.ID); !ok && !in[p.ID] {
+					return false
+				}
+			}
+		}
+		in[x] = true
+	}
+	return true
+}
+
+// topoShuffle returns the transactions of a block in a random order that
+// still delivers parents before children.
+func (s *Sim) topoShuffle(txs []int64) []int64 {
+	left := append([]int64{}, txs...)
+	var out []int64
+	for len(left) > 0 {
+		var ready []int
+		for i, c := range left {
+			ok := true
+			for _, p := range left {
+				if p != c && spendsOutputOf(s.U, c, p) {
+					ok = false
+				}
+			}
+			if ok {
+				ready = append(ready, i)
+			}
+		}
+		if len(ready) == 0 { // cannot happen (ids are topological)
+			ready = []int{0}
+		}
+		i := ready[s.r.Intn(len(ready))]
+		out = append(out, left[i])
+		left = append(left[:i], left[i+1:]...)
+	}
+	return out
+}
+
+// connectAgain re-delivers a block the wallet was told about before: same
+// id (= hash), height, time and transactions, in any parents-first order,
+// interleaved with stale deliveries of the unmined versions.
+func (s *Sim) connectAgain(blk simBlock) {
+	s.chain = append(s.chain, blk)
+	s.tipH = blk.height
+	order := s.topoShuffle(blk.txs)
+	for i := range order {
+		if order[i] != blk.txs[i] {
+			s.Tags["reconnect_in_other_order"]++
+			break
+		}
+	}
+	for _, x := range order {
+		delete(s.mempool, x)
+		for _, in := range s.U.Get(x).Ins {
+			for _, m := range s.mempoolSpenders(in) {
+				s.evictFromMempool(m)
+				s.Tags["conflict_confirmed"]++
+			}
+		}
+		if !s.U.Get(x).Coinbase && s.r.Chance(1, 4) {
+			// the unmined version arrives (again) just before the block
+			if s.r.Chance(1, 2) {
+				s.emit(Event{K: "seen", T: x})
+			} else if s.emit(Event{K: "redeliver", T: x, H: -1}) {
+				s.Tags["redeliver_with_credits"]++
+			}
+			s.Tags["unmined_redelivery_inside_reconnect"]++
+		}
+		e := Event{K: "confirm", T: x, H: blk.height, B: blk.id, BT: blk.time}
+		if s.emit(e) {
+			if s.U.Get(x).Coinbase {
+				s.Tags["coinbase_reconnected"]++
+			}
+		}
+		if s.r.Chance(1, 8) {
+			s.emit(e)
+			s.Tags["redelivery"]++
+		}
+		if !s.U.Get(x).Coinbase && s.r.Chance(1, 8) {
+			s.emit(Event{K: "seen", T: x}) // stale mempool notification after the block
+			s.Tags["redelivery"]++
+		}
+	}
+}
+
+// reconnect returns the node to the branch it left by the last
+// reorganisation (reorg back; or the start-up rollback of the wallet followed
+// by a rescan that delivers the same blocks once more).
+func (s *Sim) reconnect() {
+	if len(s.detached) == 0 {
+		return
+	}
+	if s.tipH >= s.detBase {
+		// a block hash commits to its parent: whatever was connected above
+		// the fork point in the meantime goes first (a deeper reorganisation)
+		if len(s.chain) > 0 && s.chain[len(s.chain)-1].height >= s.detBase {
+			s.Tags["reconnect_after_deeper_reorg"]++
+		}
+		s.rollbackTo(s.detBase)
+	}
+	if s.r.Chance(1, 3) && len(s.chain) > 0 {
+		// a rescan starts below the rollback point: the surviving top block is delivered again
+		b := s.chain[len(s.chain)-1]
+		for _, x := range b.txs {
+			s.emit(Event{K: "confirm", T: x, H: b.height, B: b.id, BT: b.time})
+		}
+		s.Tags["rescan_overlap"]++
+	}
+	n := len(s.detached)
+	if n > 1 && s.r.Chance(1, 4) {
+		n = s.r.Range(1, n-1)
+		s.Tags["reconnect_partial"]++
+	}
+	done := 0
+	for _, b := range s.detached[:n] {
+		if !s.validNow(b) {
+			s.Tags["reconnect_impossible"]++
+			break
+		}
+		s.connectAgain(b)
+		s.Tags["reconnect_same_block"]++
+		done++
+	}
+	// a partly reconnected branch can be completed later unless something else is mined first
+	s.detached = append([]simBlock{}, s.detached[done:]...)
+	if done < n {
+		s.detached = nil
+	}
+}
+
 func (s *Sim) leaseEvent() {
 	// pick an outpoint: mostly credited outputs of known txs, sometimes unknown
 	var cands [][2]int64
@@ -446,10 +678,14 @@ func (s *Sim) leaseEvent() {
 
 // Run generates a history.
 func (s *Sim) Run(cfg GenConfig) {
+	s.cfg = cfg
 	for len(s.Events) < cfg.MaxEvents {
-		w := []int{6, 4, 2, 1, 0, 1, 1}
+		w := []int{6, 4, 2, 1, 0, 1, 1, 0}
 		if cfg.Leases {
 			w[4] = 5
+		}
+		if cfg.Reconnect && len(s.detached) > 0 {
+			w[7] = 4
 		}
 		if len(s.U.Txs) >= cfg.MaxTxs {
 			w[0] = 0
@@ -469,6 +705,12 @@ func (s *Sim) Run(cfg GenConfig) {
 			s.mineBlock()
 		case 2:
 			s.reorg()
+			if cfg.Reconnect && s.r.Chance(2, 5) {
+				s.reconnect() // rollback + rescan / immediate reorg back
+				s.Tags["reconnect_immediately"]++
+			}
+		case 7:
+			s.reconnect()
 		case 3: // abandon an unconfirmed wallet transaction
 			var uc []int64
 			for t := range s.F.Unconf {
